@@ -507,7 +507,16 @@ impl World {
             return PollRes::NotReady;
         }
         self.polls += 1;
-        let r = self.server.as_mut().unwrap().requests();
+        // a panic inside the library is a result like any other (never a harness failure)
+        let r = match std::panic::catch_unwind(std::panic::AssertUnwindSafe(|| self.server.as_mut().unwrap().requests())) {
+            Ok(r) => r,
+            Err(p) => {
+                let res = PollRes::Err(format!("PANIC({})", crate::connrun::panic_msg(p)));
+                self.note(format!("poll#{} -> {:?}", self.polls, res));
+                self.poll_results.push(res.clone());
+                return res;
+            }
+        };
         let res = match r {
             Ok(v) => {
                 let n = v.len();
@@ -581,7 +590,14 @@ impl World {
         self.clients[o.c].expected.push(Expected { j: o.j, bytes });
         let mut slot = Some(resp);
         let sresp = o.sreq.process(|_| slot.take().unwrap_or_else(|| Response::new(micro_http::Version::Http11, micro_http::StatusCode::OK)));
-        let r = self.server.as_mut().unwrap().respond(sresp);
+        let r = match std::panic::catch_unwind(std::panic::AssertUnwindSafe(|| self.server.as_mut().unwrap().respond(sresp))) {
+            Ok(r) => r,
+            Err(p) => {
+                self.api_errors.push(format!("respond(c{}r{}) -> PANIC({})", o.c, o.j, crate::connrun::panic_msg(p)));
+                self.respond_results.push((o.c, o.j, false));
+                return false;
+            }
+        };
         let ok = r.is_ok();
         if let Err(e) = &r {
             self.api_errors.push(format!("respond(c{}r{}) -> {}", o.c, o.j, serr(e)));
@@ -635,7 +651,9 @@ impl World {
     }
 
     pub fn flush(&mut self) {
-        self.server.as_mut().unwrap().flush_outgoing_writes();
+        if let Err(p) = std::panic::catch_unwind(std::panic::AssertUnwindSafe(|| self.server.as_mut().unwrap().flush_outgoing_writes())) {
+            self.api_errors.push(format!("flush_outgoing_writes -> PANIC({})", crate::connrun::panic_msg(p)));
+        }
         self.note("flush_outgoing_writes".into());
     }
 
